@@ -24,6 +24,12 @@
 (*  - one read action per read primitive x target (Reads): the abstract    *)
 (*    working state (visible accounts, which of them sit in the account    *)
 (*    buffer, visible storage, staged storages) must not change;           *)
+(*  - governance: GovTx (an earlier governance transaction of the block    *)
+(*    stages the storage of the system / name contract -- only then would  *)
+(*    a write made by a "read" reach the block) and the reads the host API *)
+(*    makes in packages contract/system and contract/name (GvStaking,      *)
+(*    GvResolve, GvAddress, GvOwner) on addresses / names with a committed *)
+(*    record, a record of this block, and WITHOUT a record;                *)
 (*  - RdVmLoad: the VM's GetABI/getCode -- a read for the chain state, its *)
 (*    only effect is the code/ABI cache of THIS block state;               *)
 (*  - CacheAdd / CacheRemove / CacheLookup on the two block states: a      *)
@@ -63,6 +69,10 @@ BSs   == {"b1", "b2"}
 Kinds == {"code", "abi"}
 CKeys == {"c1", "c2"}
 Objs  == {"x1", "x2"}
+Govs  == {"sys", "nm"}                     \* the system and the name contract (governance): "staged" = an earlier governance
+                                           \* transaction of this block put the contract's storage into the storage cache
+Stakers == {"staker", "blockstaker", "nobody"}   \* staking record committed | written by the governance tx of this block | none
+Names == {"regname", "blockname", "noname", "special", "addr"}  \* registered (committed) | by the tx of this block | never | aergo.system | a 33-byte address
 Vers  == {"v1", "v2"}                      \* versions a block state may put into its cache
 AVals == {"none", "zero", "v1", "v2", "v3"}
 SVals == {"none", "v1", "v2", "v3"}
@@ -102,7 +112,9 @@ Init ==
   /\ lastAct = [name |-> "Init"]
 
 \* ---------------------------------------------------------------- the block's own transactions
-CanMutate == nmut < MaxMut /\ ncache = 0
+NoGov == staged \cap Govs = {}
+GovOnly == staged \cap Ctrs = {} /\ nmut = Cardinality(staged \cap Govs)   \* nothing but governance transactions so far
+CanMutate == nmut < MaxMut /\ ncache = 0 /\ NoGov
 
 PutAcct(e) ==
   /\ CanMutate /\ acct[e] # "v3"
@@ -131,7 +143,17 @@ Write(c, k, v) ==
   /\ lastAct' = [name |-> "Write", e |-> c, k |-> k, v |-> v]
   /\ UNCHANGED <<acct, layer, ref, content, ncache>>
 
+\* a governance transaction: "sys" = stake of blockstaker, "nm" = registration of blockname.  Explored apart from the other
+\* transactions (the governance reads below only look at the governance contracts).
+GovTx(g) ==
+  /\ nmut < MaxMut /\ ncache = 0 /\ GovOnly /\ g \notin staged
+  /\ staged' = staged \cup {g}
+  /\ nmut' = nmut + 1
+  /\ lastAct' = [name |-> "GovTx", e |-> g]
+  /\ UNCHANGED <<acct, layer, store, ref, content, ncache>>
+
 Mutate == \/ \E e \in {"a1", "a2"} : PutAcct(e)
+          \/ \E g \in Govs : GovTx(g)
           \/ Deploy("c2")
           \/ \E c \in {"c1", "c2"}, k \in Keys, v \in {"v3", "none"} : Write(c, k, v)
 
@@ -168,11 +190,35 @@ Reads ==
   \* constructors and revision numbers: state.NewBlockState / InitAccountState, Snapshot of BlockState / StateDB / ContractState
   \cup {R(n, "c1", "", "", FALSE, "", "", "") : n \in {"RdNewBS", "RdSnapshot"}}
 
-IsRead(n) == n \in {"RdGetState", "RdGetAccountState", "RdAccountState", "RdOpenAcc", "RdMulti", "RdData", "RdCode",
+\* ---- reads of the governance contracts: what the read-only host calls bottom out in OUTSIDE package state
+\* (luaGetStaking: statedb.GetSystemAccountState / GetNameAccountState, name.GetAddress, system.GetStaking;
+\*  luaNameResolve and every callback that takes an address or a name: name.Resolve; plus name.GetOwner)
+G(name, e, res, cls) == [name |-> name, e |-> e, k |-> "", root |-> "", z |-> FALSE, how |-> "", res |-> res, lk |-> "", cls |-> cls]
+SysSt == IF "sys" \in staged THEN "+system-contract-staged" ELSE ""
+NmSt  == IF "nm" \in staged THEN "+name-contract-staged" ELSE ""
+StakeRes(t) == CASE t = "staker" -> "v1" [] t = "blockstaker" /\ "sys" \in staged -> "v3" [] OTHER -> "none"
+StakeCls(t) == "staking:" \o (CASE t = "staker" -> "committed-record" [] t = "blockstaker" /\ "sys" \in staged -> "record-of-this-block"
+                                [] OTHER -> "no-record") \o SysSt
+\* names are resolved on the COMMITTED storage of the name contract (GetInitialData): a registration of this block is not visible
+NameRes(n) == CASE n = "regname" -> "owner" [] n \in {"special", "addr"} -> "self" [] OTHER -> "none"
+OwnerRes(n) == IF n = "regname" THEN "owner" ELSE "none"
+NameCls(n) == "name:" \o (CASE n = "regname" -> "registered" [] n = "blockname" /\ "nm" \in staged -> "registered-in-this-block"
+                             [] n = "special" -> "special-account" [] n = "addr" -> "address" [] OTHER -> "unregistered") \o NmSt
+GovReads ==
+       {G("GvStaking", t, StakeRes(t), StakeCls(t)) : t \in Stakers}
+  \cup {G(n, x, NameRes(x), NameCls(x)) : n \in {"GvResolve", "GvAddress"}, x \in Names}
+  \cup {G("GvOwner", x, OwnerRes(x), NameCls(x)) : x \in Names}
+
+GovRead(a) ==
+  /\ ncache = 0 /\ GovOnly
+  /\ lastAct' = a
+  /\ UNCHANGED <<acct, layer, store, staged, nmut, ref, content, ncache>>
+
+IsRead(n) == n \in {"GvStaking", "GvResolve", "GvAddress", "GvOwner", "RdGetState", "RdGetAccountState", "RdAccountState", "RdOpenAcc", "RdMulti", "RdData", "RdCode",
                     "RdAcctProof", "RdVarProof", "RdSys", "RdName", "RdNewBS", "RdSnapshot", "RdVmLoad", "CacheLookup"}
 
 Read(a) ==
-  /\ ncache = 0
+  /\ ncache = 0 /\ NoGov
   /\ lastAct' = a
   /\ IF Fault = "lookup-creates" /\ a.lk # "" /\ acct[a.lk] = "none"
      THEN /\ acct' = [acct EXCEPT ![a.lk] = "zero"]
@@ -227,6 +273,7 @@ CacheOp == \/ \E b \in BSs, kd \in Kinds, k \in CKeys, v \in Vers : CacheAdd(b, 
 
 Next == \/ Mutate
         \/ \E a \in Reads : Read(a)
+        \/ \E a \in GovReads : GovRead(a)
         \/ \E c \in CKeys : RdVmLoad(c)
         \/ CacheOp
 
@@ -235,7 +282,7 @@ Spec == Init /\ [][Next]_vars
 \* ---------------------------------------------------------------- properties
 TypeOK ==
   /\ acct \in [Ents -> AVals] /\ layer \in [Ents -> {"none", "trie", "buf"}]
-  /\ store \in [Ctrs -> [Keys -> SVals]] /\ staged \subseteq Ctrs
+  /\ store \in [Ctrs -> [Keys -> SVals]] /\ staged \subseteq Ctrs \cup Govs
   /\ nmut \in 0..MaxMut /\ ncache \in 0..MaxCache
   /\ ref \in [BSs -> [Kinds -> [CKeys -> SVals]]]
   /\ content \in [Objs -> [Kinds -> [CKeys -> SVals]]]
@@ -249,13 +296,14 @@ CacheIsolated == \A b \in BSs, kd \in Kinds, k \in CKeys : content[CacheObj(b)][
 \* ---------------------------------------------------------------- generation (tuple-only views: no record printing order)
 EntSeq == <<"a1", "a2", "au", "c1", "c2", "cu">>
 CtrSeq == <<"c1", "c2", "cu">>
+StSeq  == <<"c1", "c2", "cu", "sys", "nm">>
 KeySeq == <<"k1", "k2", "k3">>
 BSeq   == <<"b1", "b2">>
 KdSeq  == <<"code", "abi">>
 CKSeq  == <<"c1", "c2">>
 GView(ac, ly, st, sg, nm, rf, nc) ==
   << [i \in 1..6 |-> ac[EntSeq[i]]], [i \in 1..6 |-> ly[EntSeq[i]]],
-     [i \in 1..3 |-> [j \in 1..3 |-> st[CtrSeq[i]][KeySeq[j]]]], [i \in 1..3 |-> CtrSeq[i] \in sg], nm,
+     [i \in 1..3 |-> [j \in 1..3 |-> st[CtrSeq[i]][KeySeq[j]]]], [i \in 1..5 |-> StSeq[i] \in sg], nm,
      [i \in 1..2 |-> [j \in 1..2 |-> [l \in 1..2 |-> rf[BSeq[i]][KdSeq[j]][CKSeq[l]]]]], nc >>
 GenLog == LogTransition(GView(acct, layer, store, staged, nmut, ref, ncache), lastAct',
                         GView(acct', layer', store', staged', nmut', ref', ncache'))
